@@ -178,8 +178,18 @@ def _one(job):
     keylog = [l for c in conns for l in c["keylog"]]
     rngk.shuffle(keylog)
     ts0 = 1_700_000_000_000_000
-    data = pcapng_bytes([(ts0 + 1013 * i, fr) for i, (_ci, fr) in enumerate(mf)])
-    res = runner.run_inproc(data, "\n".join(keylog) + "\n", trace=True)
+    if seed % 4 == 1:
+        # the secrets travel in the capture: one decryption secrets block per connection, each standing right before the first packet of its
+        # connection (so later blocks follow other connections' handshakes); no key log file
+        firsts = {}
+        for i, (ci, _fr) in enumerate(mf):
+            firsts.setdefault(ci, i)
+        dsbs = [(firsts.get(ci, 0), ("\n".join(c["keylog"]) + "\n").encode()) for ci, c in enumerate(conns)]
+        data = pcapng_bytes([(ts0 + 1013 * i, fr) for i, (_ci, fr) in enumerate(mf)], dsbs=dsbs)
+        res = runner.run_inproc(data, None, trace=True)
+    else:
+        data = pcapng_bytes([(ts0 + 1013 * i, fr) for i, (_ci, fr) in enumerate(mf)])
+        res = runner.run_inproc(data, "\n".join(keylog) + "\n", trace=True)
     bad = []
     if res.crashed or res.out is None:
         bad.append("merged capture: run aborted: " + (res.exc or "no output").strip().splitlines()[-1])
